@@ -16,6 +16,15 @@ Proof. exact inv_exec. Qed.
 Theorem C01_rabbit_server_keeps_places : forall fuel s now i, Closed s -> NoTtlDead s -> occ i (fst (pump fuel s now)) = occ i s.
 Proof. exact occ_pump. Qed.
 
+(* whole histories (unbounded): from the empty server, through ANY sequence of API calls by well-behaved callers (fresh ids
+   on enqueue, requeue of a held message) with everything the client and the server do in between - deliveries, callbacks,
+   sleeping rejects, TTL expiries, buffered-expiry nacks - no id is ever in two places *)
+Theorem C01_rabbit_no_duplicates_step : forall e w now o, WI w -> wb_op w o -> WI (fst (fst (run_op e w now o))).
+Proof. exact rabbit_no_duplicates. Qed.
+
+Theorem C01_rabbit_no_duplicates_from_empty : forall e h, wb_hist e world0 h -> forall i, occ i (w_srv (run_ops e world0 h)) <= 1.
+Proof. exact rabbit_no_duplicates_from_empty. Qed.
+
 (* recorded findings, by witness: nack of a message taken through the DEAD category discards it; requeue = ack, then publish *)
 Theorem C01_rabbit_nack_from_dead_refuted :
   occ 1 (w_srv (fst (run_w env_w world0 (firstn 7 h_nack_dead)))) = 1 /\ occ 1 (w_srv (fst (run_w env_w world0 h_nack_dead))) = 0.
@@ -31,3 +40,5 @@ Print Assumptions C01_rabbit_invariants_kept.
 Print Assumptions C01_rabbit_server_keeps_places.
 Print Assumptions C01_rabbit_nack_from_dead_refuted.
 Print Assumptions C01_rabbit_requeue_gap_refuted.
+Print Assumptions C01_rabbit_no_duplicates_step.
+Print Assumptions C01_rabbit_no_duplicates_from_empty.
